@@ -288,7 +288,7 @@ def enum_resolution(seed):
         for inst_d in ({"a": {"b": {"1.0": dict(deps, SLOT="1"), "2.0": dict(deps, SLOT="2")}, "lib": {"1": {}}}},
                        {"a": {"b": {"1.0": dict(deps, SLOT="1"), "2.5": dict(deps, SLOT="2")}, "lib": {"1": {}}}},
                        {"a": {"b": {"1.5": dict(deps, SLOT="1"), "2.0": dict(deps, SLOT="2"), "3.0": dict(deps, SLOT="3")}, "lib": {"1": {}}}}):
-            for targets in (["a/b:2", "a/b:1"], ["a/b:1", "a/b:2"], ["a/b:3", "a/b:1", "a/b:2"], ["a/c", "a/b:1"], ["a/b:1", "a/c"]):
+            for targets in (["a/b:2", "a/b:1"], ["a/b:1", "a/b:2"], ["a/b:3", "a/b:1", "a/b:2"], ["a/c", "a/b:1"], ["a/b:1", "a/c"], ["a/b"], ["a/b", "a/b:1"], ["a/c", "a/b"]):
                 for kind in ("upgrade", "min_install"):
                     sessions += 1
                     cases += 1
@@ -304,6 +304,20 @@ def enum_resolution(seed):
                         fails.append({"model": model, "detail": f"{kind} of {targets} in one resolver failed: {failures}"})
                         continue
                     fin = {p.cpvstr for p in H.final_state(vdb, r)}
+                    if "a/b" in targets:
+                        # the unqualified target sees the package in all its installed slots (listed lowest first by the installed repository)
+                        top = sorted(src_d["a"]["b"], key=lambda v: tuple(map(int, v.split("."))))[-1]
+                        asserted["highest" if kind == "upgrade" else "reuse"] += 1
+                        if kind == "upgrade":
+                            if f"a/b-{top}" not in fin:
+                                # KF-C16-1: was the target already matched by something an earlier target of this resolver had planned?
+                                earlier = targets[:targets.index("a/b")]
+                                pre = bool(earlier) and bool(H.resolve(kind, src_d, inst_d, earlier)[0].state.match_atom(atom("a/b")))
+                                fails.append({"model": dict(model, satisfied_by_an_earlier_targets_plan=pre), "detail": f"upgrade of {targets}: a/b should end at its highest version {top}; final state holds {sorted(x for x in fin if x.startswith('a/b-'))}, plan {ops}"})
+                            if top in inst_d["a"]["b"] and any(o[1] == f"a/b-{top}" for o in ops):
+                                fails.append({"model": model, "detail": f"upgrade of {targets}: a/b-{top} is the highest version and installed already, yet the plan re-merges it: {ops}"})
+                        elif any(o[1].startswith("a/b-") for o in ops) and targets == ["a/b"]:
+                            fails.append({"model": model, "detail": f"minimal install of {targets}: a/b is installed, yet the plan merges {ops}"})
                     for t in targets:
                         if not t.startswith("a/b:"):
                             continue
@@ -337,7 +351,7 @@ def enum_resolution(seed):
     cases += sessions
     return {"name": "C16.resolution.bounded_enumeration",
             "bound": f"{per} seeded universes for each of the fixed seeds {THOROUGH_SEEDS if thorough else QUICK_SEEDS} (<= 4 packages x <= 3 versions, dependencies from {len(H.DEP_TEMPLATES)} templates, random installed subsets), "
-                     "one target each (resolved twice) and as many two-target sessions in one resolver, plus 60 sessions of slot-qualified targets on a package installed in two or three slots, upgrade and minimal-install strategy, against a brute-force oracle (a version counts as resolvable when some dependency-closed selection containing it can be merged in an order that never needs a dependency cycle); "
+                     "one target each (resolved twice) and as many two-target sessions in one resolver, plus 96 sessions of slot-qualified and unqualified targets on a package installed in two or three slots, upgrade and minimal-install strategy, against a brute-force oracle (a version counts as resolvable when some dependency-closed selection containing it can be merged in an order that never needs a dependency cycle); "
                      f"policy asserted in {asserted['highest']} upgrade cases with a resolvable highest version, {asserted['installed_equal']} with that version already installed, {asserted['reuse']} minimal installs with an installed match",
             "cases": cases, "failures": fails[:40]}
 
@@ -354,4 +368,5 @@ def tasks():
 
 
 REPLAY = {}
-WITNESSES = {}
+WITNESSES = {"satisfied_by_an_earlier_targets_plan": lambda m: bool(m.get("satisfied_by_an_earlier_targets_plan")),
+             }
